@@ -55,12 +55,29 @@ func SimC05(c *CheckCtx, i int, r *Rng) error {
 		return &RunOp{Args: proto.GenArgs{Entrypoint: spell(r, m, eps), Base: base, All: all, Force: true, Globals: globals}, Gens: gens, Sched: drawSched(r), Fresh: r.P(0.5)}
 	}
 	sc := &Scenario{Kind: "compare-alone", Module: m, Base: base}
-	if r.P(0.3) {
+	if r.P(0.45) {
 		allp := make([]int, len(m.Pkgs))
 		for k := range allp {
 			allp[k] = k
 		}
 		sc.Setup = []Op{{Kind: "run", Run: mk(allp, true)}}
+		if !real && r.P(0.6) {
+			// after the setup run one generator turns silent for one package: its stale file has to go,
+			// whether the package is processed alone or next to packages that still get that file
+			gens = append([]proto.GenScript{}, gens...)
+			gi := r.Range(1, len(gens)-1)
+			if isScripted(&gens[gi]) {
+				muted := muteGen(r, m, gens[gi], r.Intn(len(m.Pkgs)))
+				for k, rule := range muted.Rules {
+					if rule.Ret == "ignore" || rule.Ret == "wrapped-ignore" {
+						rule.Ret = ""
+						muted.Rules[k] = rule
+					}
+				}
+				gens[gi] = muted
+				c.Env.Stats.Add("probe/generator-muted-after-setup", 1)
+			}
+		}
 	}
 	perm := func() []int {
 		var out []int
@@ -148,6 +165,8 @@ func SimC13(c *CheckCtx, i int, r *Rng) error {
 	for k := 0; k < n; k++ {
 		sc.Variants = append(sc.Variants, Variant{Name: fmt.Sprintf("sched:shuf:%d", k), Ops: []Op{{Kind: "run", Run: &RunOp{Args: args, Sched: schedOf("shuf", r.U64())}}}})
 	}
+	// the same questions in another order: MethodsOf before any name table of the package is touched
+	sc.Variants = append(sc.Variants, Variant{Name: "sched:asc:methods-first", Ops: []Op{{Kind: "run", Run: &RunOp{Args: args, Sched: schedOf("asc", 0)}}}})
 	if r.P(0.3) {
 		// generated files from an earlier run are part of the packages too
 		gens := []proto.GenScript{Probe()}
